@@ -6904,3 +6904,39 @@ def vx2(m, run, rule='VX2.voxel-grid-tiles-the-box'):
                 bad.append(('box %s, sizes %s%s' % (bbox, sz, ', cubes' if cubes else ''), why))
     run.ob(rule, '%s :: %d (box, sizes, cubes) cases' % (fi.key, cnt), not bad, 'one step vector sizes the voxels and spaces their origins; the grid starts at the minimum corner and reaches the maximum corner; u-major order' if not bad else
            '%s: %s   [%d of %d]' % (bad[0][0], bad[0][1], len(bad), cnt), 'geomdl/_voxelize.py:%d in %s' % (fi.node.lineno, fi.key))
+
+
+# ====================================================================================== C18 / C01: which parameters count as inside the unit domain
+def cp2(m, run, rule='CP2.unit-domain-test-is-exact'):
+    """CP2: utilities.check_params interpreted with exact rational arithmetic on parameter tuples of length 1, 2 and 3: it accepts exactly
+    the tuples whose every entry lies in the closed interval [0, 1] - 0, 1 and interior values are accepted in every position, and a
+    value 10^-12 outside either end, in any one position, is rejected (an evaluation a hair outside the domain leaves the hull of the
+    active control points)"""
+    from fractions import Fraction as F
+    import itertools
+    fi = m.func('utilities.check_params')
+    eps = F(1, 10 ** 12)
+    inside = [F(0), F(1, 2), F(1)]
+    outside = [-eps, 1 + eps, F(-1), F(2)]
+    bad, cnt = [], 0
+    for n in (1, 2, 3):
+        cases = [(list(t), True) for t in itertools.product(inside, repeat=n)]
+        for pos in range(n):
+            for o_ in outside:
+                t = [F(1, 2)] * n
+                t[pos] = o_
+                cases.append((t, False))
+        for t, want in cases:
+            cnt += 1
+            sk = SK(m, {})
+            sk.exact = True
+            try:
+                out = sk.call(fi, [list(t)], {})
+                if bool(out) is not want:
+                    bad.append((tuple(str(x) for x in t), 'returns %r; the tuple is %s the unit domain' % (out, 'inside' if want else 'outside')))
+            except Violation as v:
+                bad.append((tuple(str(x) for x in t), '%s %s' % (v.msg, v.where())))
+            except Unsupported as ex:
+                raise AnalysisError('%s: interpreter met an unsupported construct: %s' % (fi.key, ex))
+    run.ob(rule, '%s :: %d parameter tuples' % (fi.key, cnt), not bad, 'accepts exactly the tuples inside [0, 1] in every position' if not bad else 'parameters %s: %s   [%d of %d]' % (bad[0][0], bad[0][1], len(bad), cnt),
+           'geomdl/utilities.py:%d in %s' % (fi.node.lineno, fi.key))
